@@ -118,3 +118,67 @@ Proof.
     + rewrite Hsplit, !count_nl_app, H1. pose proof (count_nl_nonneg pre). lia.
   - intros line Hl. unfold file_line. apply file_line_from_keep; [rewrite <- H1; lia|exact H3].
 Qed.
+
+(* ---- WriteProfile and the previous content of the profile file ---- *)
+(* Without -coverappend (or when the file did not exist) the previous content plays no role:
+   the file is created or truncated, so the result is the profile a fresh path would get. *)
+Theorem write_profile_overwrites m app existed old abs bl data :
+  app && existed = false ->
+  write_profile m app existed old abs bl data = write_profile m false false [] abs bl data.
+Proof.
+  unfold write_profile. intros H. rewrite (andb_comm existed app), H. reflexivity.
+Qed.
+
+(* With -coverappend on an existing file the old content is kept and only block lines follow *)
+Theorem write_profile_appends m old abs bl data :
+  write_profile m true true old abs bl data = old ++ profile_lines abs bl data 0.
+Proof. reflexivity. Qed.
+
+(* a fresh profile is the mode line followed by exactly one line per block of the program run *)
+Lemma dec_digits_no_nl fuel : forall n acc, 0 <= n -> Forall (fun c => c <> 10) acc ->
+  Forall (fun c => c <> 10) (dec_digits fuel n acc).
+Proof.
+  induction fuel as [|f IH]; intros n acc Hn Hacc; cbn [dec_digits]; [exact Hacc|].
+  assert (Hd : Forall (fun c => c <> 10) ((48 + n mod 10) :: acc)).
+  { constructor; [|exact Hacc]. pose proof (Z.mod_pos_bound n 10 ltac:(lia)). lia. }
+  destruct (n <? 10); [exact Hd|]. apply IH; [|exact Hd]. apply Z.div_pos; lia.
+Qed.
+
+Lemma dec_of_Z_no_nl n : Forall (fun c => c <> 10) (dec_of_Z n).
+Proof.
+  unfold dec_of_Z. destruct (n <? 0) eqn:Hn.
+  - apply Z.ltb_lt in Hn. constructor; [lia|]. apply dec_digits_no_nl; [lia|constructor].
+  - apply Z.ltb_ge in Hn. apply dec_digits_no_nl; [lia|constructor].
+Qed.
+
+Lemma count_nl_no_nl s : Forall (fun c => c <> 10) s -> count_nl s = 0.
+Proof.
+  induction 1 as [|c s Hc _ IH]; [reflexivity|]. cbn [count_nl]. rewrite IH.
+  destruct (c =? 10) eqn:E; [apply Z.eqb_eq in E; contradiction|reflexivity].
+Qed.
+
+Lemma profile_line_one abs b cnt : Forall (fun c => c <> 10) (abs (b_path b)) ->
+  count_nl (profile_line abs b cnt) = 1.
+Proof.
+  intros Hp. unfold profile_line. rewrite !count_nl_app.
+  rewrite (count_nl_no_nl _ Hp), !(count_nl_no_nl _ (dec_of_Z_no_nl _)). reflexivity.
+Qed.
+
+Lemma profile_lines_count abs bl data : forall i,
+  Forall (fun b => Forall (fun c => c <> 10) (abs (b_path b))) bl ->
+  count_nl (profile_lines abs bl data i) = zlen bl.
+Proof.
+  induction bl as [|b t IH]; intros i HF; [reflexivity|].
+  inversion HF as [|? ? Hb Ht]; subst. cbn [profile_lines].
+  rewrite count_nl_app, (profile_line_one _ _ _ Hb), (IH _ Ht), zlen_cons. reflexivity.
+Qed.
+
+Theorem write_profile_line_count m app existed old abs bl data :
+  app && existed = false ->
+  Forall (fun b => Forall (fun c => c <> 10) (abs (b_path b))) bl ->
+  count_nl (write_profile m app existed old abs bl data) = 1 + zlen bl.
+Proof.
+  intros H HF. rewrite (write_profile_overwrites _ _ _ _ _ _ _ H). unfold write_profile. cbn [andb negb].
+  rewrite !count_nl_app, (profile_lines_count _ _ _ _ HF).
+  destruct m; reflexivity.
+Qed.
